@@ -88,6 +88,10 @@ def check(ctx, rep):
     rep.rule("R18c", "pushLocals/addRepeat set a saved flag; popLocals/removeRepeat only under that flag", floor=4)
     rep.rule("R18d", "template text reaches the compiled program escaped: handle_data escapes; character/entity reference handlers "
              "are dormant (html.parser converts references first) or escape what they decode", floor=2)
+    rep.rule("R18f", "a template compiler drives the parser it is built on: no mix-in base listed before a parser base defines a method of the "
+             "parser library's interface (feed, close, reset, handle_* ...) - the compiler would call the mix-in's method and the parser "
+             "would never see the call (text still buffered at the end of the document is lost)", floor=1)
+    library_shadow_obligations(ctx, rep, "R18f")
     rep.rule("R18e", "context pushes are all-or-nothing: after a method of the context has pushed a frame it calls nothing that can fail on the "
              "caller's objects (the interpreter pops only what it knows was pushed)", floor=1)
     rep.assume("simpleTALUtils (macro expansion utility) is not used by template expansion and is out of scope")
@@ -475,3 +479,82 @@ def _flatten_add(n):
     if isinstance(n, ast.BinOp) and isinstance(n.op, ast.Add):
         return _flatten_add(n.left) + _flatten_add(n.right)
     return [n]
+
+
+# ---------------------------------------------------------------------------------------------- R18f
+def _library_names(dotted_name):
+    """Public callables of a class of the standard library (looked up in the running interpreter's own library; nothing
+    of the repository is imported)."""
+    import importlib
+    import sys as _sys
+
+    modname, _, clsname = dotted_name.rpartition(".")
+    if not modname or modname.split(".")[0] not in getattr(_sys, "stdlib_module_names", ()):
+        return None
+    try:
+        L = getattr(importlib.import_module(modname), clsname)
+    except Exception:
+        return None
+    if not isinstance(L, type):
+        return None
+    return {n for n in dir(L) if not n.startswith("__") and callable(getattr(L, n, None)) and not hasattr(object, n)}
+
+
+def library_shadow_obligations(ctx, rep, rule="R18f"):
+    prog = ctx.prog
+    n_cls = 0
+    for mod in prog.modules.values():
+        if not mod.name.startswith("simpletal"):
+            continue
+        for C in mod.classes.values():
+            if len(C.bases) < 2:
+                continue
+
+            def lib_roots(b, _seen=()):
+                """library classes a base descends from"""
+                if isinstance(b, str):
+                    return {b}
+                out = set()
+                if b in _seen:
+                    return out
+                for bb in b.bases:
+                    out |= lib_roots(bb, _seen + (b,))
+                return out
+
+            def repo_methods(b, _seen=()):
+                out = {}
+                if isinstance(b, str) or b in _seen:
+                    return out
+                for bb in reversed(b.bases):
+                    out.update(repo_methods(bb, _seen + (b,)))
+                out.update({n: m for n, m in b.methods.items()})
+                return out
+
+            later_libs = []
+            for i, b in enumerate(C.bases):
+                libs = set()
+                for bj in C.bases[i + 1:]:
+                    libs |= lib_roots(bj)
+                libs -= lib_roots(b)  # a base that is itself built on the library overrides it on purpose
+                later_libs.append(libs)
+            if not any(later_libs):
+                continue
+            n_cls += 1
+            problems = []
+            for b, libs in zip(C.bases, later_libs):
+                if isinstance(b, str) or not libs:
+                    continue
+                meths = repo_methods(b)
+                for L in sorted(libs):
+                    names = _library_names(L)
+                    if names is None:
+                        continue
+                    for n in sorted(set(meths) & names):
+                        if n in C.methods:
+                            continue  # the class itself settles which one is meant
+                        problems.append((meths[n], f"{meths[n].qualname} comes before {L}.{n} in the method order of {C.name}: self.{n}() and the "
+                                         f"library's own calls of {n}() reach the mix-in, never the parser"))
+            rep.add(rule, f"{C.qualname}: mix-in bases leave the parser interface alone", not problems,
+                    ctx.where(problems[0][0]) if problems else ctx.where(C), "; ".join(p_[1] for p_ in problems[:2]), key=f"{rule}|{C.qualname}")
+    if not n_cls:
+        rep.fail(rule, "template compilers", detail="no class combining a mix-in with a parser base found")
